@@ -412,34 +412,69 @@ def run(prog, rep):
     if any(isinstance(c_, ast.Call) and call_name(c_) == 'items' for c_ in ast.walk(loop.iter)) and tgt_names:
         row_vals.add(tgt_names[-1])
 
+    it_ = loop.iter
+    if isinstance(it_, ast.Call) and isinstance(it_.func, ast.Name) and it_.func.id == 'enumerate' and it_.args:
+        it_ = it_.args[0]
+    if isinstance(it_, ast.Call) and call_name(it_) in ('keys', 'items', 'values'):
+        it_ = it_.func.value
+    dict_names = {ast.unparse(it_)}
+
     def from_row(e):
-        t = ast.unparse(e)
-        return any(isinstance(x, ast.Subscript) and 'interfaces_dict' in ast.unparse(x.value) for x in ast.walk(e)) or \
+        return any(isinstance(x, ast.Subscript) and ast.unparse(x.value) in dict_names and
+                   any(isinstance(y, ast.Name) and y.id in tgt_names for y in ast.walk(x.slice)) for x in ast.walk(e)) or \
             any(isinstance(x, ast.Name) and x.id in row_vals for x in ast.walk(e))
     bw_ok = any(any(k.arg == 'bw' and isinstance(k.value, ast.Call) and isinstance(k.value.func, ast.Name) and k.value.func.id == 'int' and from_row(k.value)
                     for k in c.keywords) for c in caps_calls)
-    unit_ok = all(any(k.arg == 'unit' and ast.unparse(k.value) == 'units' for k in c.keywords) for c in caps_calls) and bool(caps_calls)
+
+    def is_unit_count(e):
+        # the number of devices behind the port: len(<labels>.bdf) (1 when there is no such list)
+        if isinstance(e, ast.Name):
+            defs = [a.value for a in ast.walk(loop) if isinstance(a, ast.Assign) and any(isinstance(t, ast.Name) and t.id == e.id for t in a.targets)]
+            return bool(defs) and all(is_unit_count(d) for d in defs)
+        return any(isinstance(x, ast.Call) and isinstance(x.func, ast.Name) and x.func.id == 'len' and x.args and
+                   isinstance(x.args[0], ast.Attribute) and x.args[0].attr == 'bdf' for x in ast.walk(e))
+    unit_ok = all(any(k.arg == 'unit' and is_unit_count(k.value) for k in c.keywords) for c in caps_calls) and bool(caps_calls)
     rep.instance('R3', f'{gq}: capacities built by {[norm(c) for c in caps_calls]}')
     if not bw_ok or not unit_ok:
         rep.violation('R3', loc(cmod, loop), gq, 'interface capacities not taken from the row / unit count',
                       'the port speed must be int(<catalogued speed of that port>) and the unit count the number of devices')
-    # row copying
-    copies = {'set_model': "component_dict['Model']", 'set_details': "component_dict['Details']",
-              'set_type': "component_dict['Type']"}
-    for setter, src in copies.items():
+    # row copying: the row is the catalogue entry selected by the lookup loop; the sliver is the fresh ComponentSliver
+    cat_loops = []
+    for l in [n for n in walk_no_nested(gc) if isinstance(n, ast.For) and isinstance(n.target, ast.Name)]:
+        src_ = expand(l.iter, local_env(gc))
+        if isinstance(src_, ast.Call) and call_name(src_).endswith('read_catalog'):
+            cat_loops.append(l)
+    if len(cat_loops) != 1:
+        raise AnalysisError(f'{gq}: catalogue lookup loop not found')
+    cl = cat_loops[0]
+    entry = cl.target.id
+    row_names = {t.id for a in ast.walk(cl) if isinstance(a, ast.Assign) and isinstance(a.value, ast.Name) and a.value.id == entry
+                 for t in a.targets if isinstance(t, ast.Name)}
+    sl_names = {t.id for a in walk_no_nested(gc) if isinstance(a, ast.Assign) and isinstance(a.value, ast.Call) and isinstance(a.value.func, ast.Name) and
+                a.value.func.id == 'ComponentSliver' for t in a.targets if isinstance(t, ast.Name)}
+    if len(row_names) != 1 or len(sl_names) != 1:
+        raise AnalysisError(f'{gq}: matched row / generated sliver locals not identified ({sorted(row_names)}, {sorted(sl_names)})')
+    rowv, slv = next(iter(row_names)), next(iter(sl_names))
+    copies = {'set_model': 'Model', 'set_details': 'Details', 'set_type': 'Type'}
+    for setter, key_ in copies.items():
         found = [n for n in walk_no_nested(gc) if isinstance(n, ast.Call) and call_name(n) == setter and
-                 ast.unparse(n.func.value) == 'cs']
-        rep.instance('R3', f'{gq}: cs.{setter}({norm(found[0].args[0]) if found else "?"})')
-        if not found or src not in ast.unparse(found[0].args[0]):
-            rep.violation('R3', loc(cmod, gc), gq, f'cs.{setter} not fed from {src}',
+                 ast.unparse(n.func.value) == slv]
+        rep.instance('R3', f'{gq}: <sliver>.{setter}({norm(found[0].args[0]) if found and found[0].args else "?"})')
+        fed = found and found[0].args and any(isinstance(x, ast.Subscript) and isinstance(x.value, ast.Name) and x.value.id == rowv and
+                                              isinstance(x.slice, ast.Constant) and x.slice.value == key_ for x in ast.walk(found[0].args[0]))
+        if not fed:
+            rep.violation('R3', loc(cmod, gc), gq, f"<sliver>.{setter} not fed from <matched row>['{key_}']",
                           f'the generated component must take its {setter[4:]} from the matched catalogue row')
     # lookup matches model AND type
-    match_ifs = [n for n in walk_no_nested(gc) if isinstance(n, ast.If) and 'ctype_str' in ast.unparse(n.test)]
+    match_ifs = [n for n in ast.walk(cl) if isinstance(n, ast.If) and
+                 any(isinstance(a, ast.Assign) and any(isinstance(t, ast.Name) and t.id == rowv for t in a.targets) for a in n.body)]
     rep.instance('R3', f'{gq}: lookup tests {[norm(n.test) for n in match_ifs]}')
     for n in match_ifs:
-        t = ast.unparse(n.test)
-        if "c['Type']" not in t or 'model' not in t:
-            rep.violation('R3', loc(cmod, n), gq, norm(n.test), 'catalogue lookup must match both the model and the type')
+        has_type = any(isinstance(x, ast.Subscript) and isinstance(x.value, ast.Name) and x.value.id == entry and isinstance(x.slice, ast.Constant) and
+                       x.slice.value == 'Type' for x in ast.walk(n.test))
+        has_model = any(isinstance(x, ast.Name) and x.id == 'model' for x in ast.walk(n.test))
+        if not has_type or not has_model:
+            rep.violation('R3', loc(cmod, n), gq, 'lookup test without model or type', f'catalogue lookup must match both the model and the type (found `{norm(n.test, 100)}`)')
     if len(match_ifs) < 2:
         rep.violation('R3', loc(cmod, gc), gq, 'lookup does not test main model and AlsoModels',
                       'the catalogue lookup must test the main model and the AlsoModels list')
